@@ -31,4 +31,14 @@ META = {
         exhaustive={"quick": True, "thorough": True},
         timeout=900,
     ),
+    "C07": dict(
+        rule="all scope trees of depth <= 2 with up to 2 children per node over 6 modes x 2 outcomes (1884), all pairs of "
+             "top-level siblings on one context (144), random trees to depth 3 (thorough: complete depth-3 chains), "
+             "each on a shared context and on fresh contexts carrying the xid, through the real tm.WithGlobalTx; "
+             "per-case request log + xid/role/name seen in and after each scope compared with the Lean `run`; "
+             "gRPC/gin/dubbo carriers with random xids in every accepted spelling. non-trivial = more than one scope",
+        trusted=["fakecoord; xids are renumbered by order of begin for comparison"],
+        assumptions=["integrations are exercised in-process (grpc metadata contexts, httptest, stub dubbo invoker)"],
+        timeout=1200,
+    ),
 }
